@@ -40,7 +40,8 @@ func ruleLessStrict(rule string, minInstances int) func(*Ctx) {
 				fatalf("%s: comparison closure has a loop — undecided", fn)
 			}
 			// discover the keys
-			probe := (&explorer{c: c, f: f}).explore(nil)
+			cij := canonParams(f, "i", "j")
+			probe := (&explorer{c: c, f: f, canon: cij}).explore(nil)
 			keySet := map[string]bool{}
 			for _, p := range probe {
 				for _, cd := range p.conds {
@@ -81,7 +82,7 @@ func ruleLessStrict(rule string, minInstances int) func(*Ctx) {
 					atoms[k] = intVal(x[i])
 					atoms[strings.Replace(k, "[i]", "[j]", 1)] = intVal(y[i])
 				}
-				outs := (&explorer{c: c, f: f, atoms: atoms}).explore(nil)
+				outs := (&explorer{c: c, f: f, atoms: atoms, canon: cij}).explore(nil)
 				if len(outs) != 1 || len(outs[0].conds) != 0 || len(outs[0].ret) != 1 || outs[0].ret[0].abs.k != aBool {
 					fatalf("%s: comparison is not a function of its keys %v alone — undecided", fn, keys)
 				}
@@ -172,7 +173,8 @@ func ruleSweepOrder(rule string) func(*Ctx) {
 	return func(c *Ctx) {
 		for _, f := range lessClosures(c) {
 			fn := c.fname(f)
-			probe := (&explorer{c: c, f: f}).explore(nil)
+			cij := canonParams(f, "i", "j")
+			probe := (&explorer{c: c, f: f, canon: cij}).explore(nil)
 			keySet := map[string]bool{}
 			for _, p := range probe {
 				for _, cd := range p.conds {
@@ -208,7 +210,7 @@ func ruleSweepOrder(rule string) func(*Ctx) {
 								atoms[kx] = intVal(ax)
 								atoms[strings.Replace(kx, "[i]", "[j]", 1)] = intVal(bx)
 							}
-							outs := (&explorer{c: c, f: f, atoms: atoms}).explore(nil)
+							outs := (&explorer{c: c, f: f, atoms: atoms, canon: cij}).explore(nil)
 							if len(outs) != 1 || len(outs[0].ret) != 1 || outs[0].ret[0].abs.k != aBool {
 								fatalf("%s: undecided", fn)
 							}
